@@ -202,11 +202,11 @@ def corpus_cases(scratch):
         ('S14-static-array-no-length',
          {MAIN: H + mini3 + '                - a: {field-type: {class: static-array, element-field-type: {class: str}}}\n'}, 3,
          '=cpe'),
-        ('S15-deep-flow-seq', {MAIN: '[' * 1000 + ']' * 1000 + '\n'}, 2, 'S15-deep-nesting-RecursionError'),
-        ('S15-deep-flow-seq-v3', {MAIN: H + 'trace: ' + '[' * 1000 + ']' * 1000 + '\n'}, 3, 'S15-deep-nesting-RecursionError'),
-        ('S15-deep-flow-map', {MAIN: '{a: ' * 1000 + '1' + '}' * 1000 + '\n'}, 2, 'S15-deep-nesting-RecursionError'),
+        ('S15-deep-flow-seq', {MAIN: '[' * 1000 + ']' * 1000 + '\n'}, 2, '=cpe-all'),
+        ('S15-deep-flow-seq-v3', {MAIN: H + 'trace: ' + '[' * 1000 + ']' * 1000 + '\n'}, 3, '=cpe'),
+        ('S15-deep-flow-map', {MAIN: '{a: ' * 1000 + '1' + '}' * 1000 + '\n'}, 2, '=cpe-all'),
         ('S15-deep-block', {MAIN: ''.join(' ' * i + 'a:\n' for i in range(600)) + ' ' * 600 + 'b\n'}, 2,
-         'S15-deep-nesting-RecursionError'),
+         '=cpe-all'),
         ('S6-beginning-timestamp-no-clock',
          {MAIN: T3 + '    data-stream-types:\n      d:\n        $features:\n'
                      '          packet: {beginning-timestamp-field-type: true}\n        event-record-types:\n          e: ' + PL + '\n'}, 3,
@@ -227,7 +227,15 @@ def corpus_cases(scratch):
          '=cpe'),
         ('S8-member-field-type-bool',
          {MAIN: T3 + '    $field-type-aliases: {u: {class: uint, size: 8}}\n    data-stream-types: {d: {event-record-types: {e: '
-                     '{payload-field-type: {class: struct, members: [{a: {field-type: true}}]}}}}}\n'}, 3, 'S8-_resolve_ft_alias'),
+                     '{payload-field-type: {class: struct, members: [{a: {field-type: true}}]}}}}}\n'}, 3, '=cpe'),
+        ('S8-alias-element-field-type-bool',
+         {MAIN: T3 + '    $field-type-aliases: {arr: {class: static-array, length: 16, element-field-type: true}}\n'
+                     '    data-stream-types: {d: {event-record-types: {e: '
+                     '{payload-field-type: {class: struct, members: [{a: arr}]}}}}}\n'}, 3, '=cpe'),
+        ('S8-member-element-field-type-bool',
+         {MAIN: T3 + '    $field-type-aliases: {u: {class: uint, size: 8}}\n    data-stream-types: {d: {event-record-types: {e: '
+                     '{payload-field-type: {class: struct, members: [{a: {field-type: {class: static-array, length: 2, '
+                     'element-field-type: true}}}]}}}}}\n'}, 3, '=cpe'),
         ('S8-root-key-required', {MAIN: H + 'required: 1\n' + mini3 + '                - a: {field-type: {class: str}}\n'}, 3,
          '=cpe'),
         ('S8-trace-type-key-required', {MAIN: T3 + '    required: 1\n' + DST1}, 3, '=cpe'),
@@ -252,6 +260,16 @@ def corpus_cases(scratch):
          {MAIN: T3 + '    $field-type-aliases: {}\n    data-stream-types:\n      d:\n'
                      '        packet-context-field-type-extra-members: [{a: {field-type: {class: struct, members: 5}}}]\n'
                      '        event-record-types: {e: {}}\n'}, 3, '=cpe'),
+        ('S8-v2-inherit-null-alias',
+         {MAIN: "version: '2.2'\nmetadata:\n  type-aliases: {x: null}\n  trace: {byte-order: le}\n  streams:\n    s:\n"
+                "      packet-context-type: {class: struct, fields: {packet_size: {class: int, size: 8}, "
+                "content_size: {class: int, size: 8}}}\n"
+                "      events: {e: {payload-type: {class: struct, fields: {a: {$inherit: x}}}}}\n"}, 2, '=cpe'),
+        ('S8-v2-true-alias',
+         {MAIN: "version: '2.2'\nmetadata:\n  type-aliases: {x: true}\n  trace: {byte-order: le}\n  streams:\n    s:\n"
+                "      packet-context-type: {class: struct, fields: {packet_size: {class: int, size: 8}, "
+                "content_size: {class: int, size: 8}}}\n"
+                "      events: {e: {payload-type: {class: struct, fields: {a: x}}}}\n"}, 2, '=cpe'),
         ('S8-inherit-null-alias',
          {MAIN: T3 + '    $field-type-aliases: {x: null}\n    data-stream-types: {d: {event-record-types: {e: '
                      '{payload-field-type: {$inherit: x}}}}}\n'}, 3, '=cpe'),
